@@ -4,13 +4,13 @@ CONSTANTS
   CurDrive = 67
   AsCodedDots = FALSE
   AsCodedNames = TRUE
-  Elems <- Elems6
+  Elems <- Elems4
   Prefixes <- Pre0
-  MaxElems = 2
+  MaxElems = 1
   NameElems = 1
-  StmtSet = {"CHDIR", "MKDIR", "RMDIR", "OPENI", "OPENO", "FILES", "KILL", "NAME"}
+  StmtSet = {"CHDIR", "MKDIR", "RMDIR", "OPENO", "KILL", "NAME"}
   Dynamic = TRUE
-  MaxNodes = 19
+  MaxNodes = 17
 VIEW View
 INVARIANT TouchedInside
 INVARIANT CwdInside
